@@ -2244,6 +2244,13 @@ func (gs *GossipSubRouter) getFanoutPeersForPublishing(topic string) map[peer.ID
 }
 
 func (gs *GossipSubRouter) getPeers(topic string, count int, filter func(peer.ID) bool) []peer.ID {
+	// Callers pass parameters such as D, OpportunisticGraftPeers or PrunePeers,
+	// which may legitimately be 0 (e.g. the bootstrapper set D=Dlo=Dhi=Dout=0):
+	// that asks for no peers, not for all of them.
+	if count <= 0 {
+		return nil
+	}
+
 	tmap, ok := gs.p.topics[topic]
 	if !ok {
 		return nil
@@ -2258,7 +2265,7 @@ func (gs *GossipSubRouter) getPeers(topic string, count int, filter func(peer.ID
 
 	shufflePeers(peers)
 
-	if count > 0 && len(peers) > count {
+	if len(peers) > count {
 		peers = peers[:count]
 	}
 
